@@ -167,6 +167,8 @@ struct CaseSpec {
     emitted: Option<String>,
     /// the encoder's error for a program the front end accepted
     emit_failed: Option<String>,
+    /// for containers encoded from a well-formed hand-built module: `decode(encode(m)) == m` (real code)
+    built: Option<String>,
 }
 
 fn fnv64(bytes: &[u8]) -> u64 {
@@ -466,11 +468,63 @@ fn corpus_case(k: u64) -> Option<(Vec<u8>, Vec<String>)> {
             replace_section(&mut m, SectionId::TypeTable, p);
             Some((enc(&m), note("corpus: single type entry at offset = payload length")))
         }
+        28 => {
+            // the hand-built module in format version 1.0 (no string padding, no type offsets, no defaults)
+            let m = wf_variant(28);
+            Some((enc(&m), note("corpus: the hand-built module, version 1.0")))
+        }
+        29 => {
+            let m = wf_variant(29);
+            Some((enc(&m), note("corpus: the hand-built module with a vendor section and without optional sections")))
+        }
         _ => None,
     }
 }
 
-const CORPUS: u64 = 28;
+/// Well-formed variants of the hand-built module (what `encode` can represent exactly).
+fn wf_variant(k: u64) -> BytecodeModule {
+    let mut rng = Rng::new(0xC11);
+    let mut m = rich_module(&mut rng);
+    m.sections.retain(|s| s.id != 0x7777);
+    m.version.minor = 1;
+    match k {
+        28 => {
+            m.version.minor = 0;
+            m.flags = 0;
+            // version 1.0 has no default-constant field
+            if let Some(SectionData::PouIndex(ix)) = m.section_mut(SectionId::PouIndex) {
+                for e in ix.entries.iter_mut() {
+                    for p in e.params.iter_mut() {
+                        p.default_const_idx = None;
+                    }
+                }
+            }
+        }
+        29 => {
+            m.sections.retain(|s| !matches!(s.id, 0x000B | 0x000C));
+            m.sections.push(Section { id: 0x9001, flags: 5, data: SectionData::Raw(vec![9, 8, 7]) });
+        }
+        _ => {}
+    }
+    refresh_offsets(&mut m);
+    m
+}
+
+/// `decode(encode(m)) == m` and `encode(decode(encode(m))) == encode(m)` with the real code, for a
+/// module that is well-formed by construction.
+fn built_answer(k: u64) -> String {
+    let m = wf_variant(k);
+    let r = std::panic::catch_unwind(|| {
+        let bytes = m.encode().expect("encode");
+        match BytecodeModule::decode(&bytes) {
+            Ok(d) => format!("rt={} same={}", (d == m) as u8, (d.encode().ok().as_deref() == Some(&bytes[..])) as u8),
+            Err(_) => "decode-err".to_string(),
+        }
+    });
+    r.unwrap_or_else(|_| "panic".into())
+}
+
+const CORPUS: u64 = 30;
 /// one case per opcode byte: the program body is `[op, 0 × 8, RET]`
 const SWEEP: u64 = 256;
 
@@ -502,6 +556,9 @@ fn sweep_case(op: u8) -> Vec<u8> {
 
 struct Bases {
     emitted: Vec<(BytecodeModule, String)>,
+    /// the hand-built module of the boundary sweep and the first slot of each of its field sites
+    sweep_module: BytecodeModule,
+    sites: Vec<(&'static str, usize)>,
 }
 
 enum Compiled {
@@ -547,7 +604,11 @@ fn gen_case(n: u64, seed: u64, bases: &Bases, out: &mut Out) -> CaseSpec {
     let simple = gen_st::SIMPLE_RUNTIME.to_string();
     if n < CORPUS {
         if let Some((bytes, notes)) = corpus_case(n) {
-            return CaseSpec { kind: "corpus", notes, bytes, runtime_source: simple, resource: "none".into(), emitted: None, emit_failed: None };
+            let built = match n {
+                0 | 28 | 29 => Some(built_answer(n)),
+                _ => None,
+            };
+            return CaseSpec { kind: "corpus", notes, bytes, runtime_source: simple, resource: "none".into(), emitted: None, emit_failed: None, built };
         }
     }
     if n < CORPUS + SWEEP {
@@ -560,7 +621,26 @@ fn gen_case(n: u64, seed: u64, bases: &Bases, out: &mut Out) -> CaseSpec {
             resource: "none".into(),
             emitted: None,
             emit_failed: None,
+                built: None,
         };
+    }
+    // boundary sweep: every field site of the hand-built module x 5 boundary values, one at a time
+    let k = n - CORPUS - SWEEP;
+    if (k as usize) < bases.sites.len() * SITE_VALUES {
+        let (site, slot) = bases.sites[k as usize / SITE_VALUES];
+        let v = k as usize % SITE_VALUES;
+        if let Some((bytes, what)) = site_sweep_bytes(&bases.sweep_module, site, slot, v) {
+            return CaseSpec {
+                kind: "site-sweep",
+                notes: vec![what],
+                bytes,
+                runtime_source: simple,
+                resource: "none".into(),
+                emitted: None,
+                emit_failed: None,
+                built: None,
+            };
+        }
     }
     let mut rng = Rng::for_case(seed, n);
     let resource = match rng.below(10) {
@@ -588,6 +668,7 @@ fn gen_case(n: u64, seed: u64, bases: &Bases, out: &mut Out) -> CaseSpec {
                     resource: "none".into(),
                     emitted: Some(answer),
                     emit_failed: None,
+                built: None,
                 };
             }
             Some(Compiled::EmitFailed(source, err)) => {
@@ -599,6 +680,7 @@ fn gen_case(n: u64, seed: u64, bases: &Bases, out: &mut Out) -> CaseSpec {
                     resource: "none".into(),
                     emitted: None,
                     emit_failed: Some(err),
+                    built: None,
                 };
             }
             None => {}
@@ -630,10 +712,10 @@ fn gen_case(n: u64, seed: u64, bases: &Bases, out: &mut Out) -> CaseSpec {
             }
             fix_crc(&mut bytes);
             let notes = vec!["random bytes behind a valid header".to_string()];
-            return CaseSpec { kind: "random-header", notes, bytes, runtime_source: simple, resource, emitted: None, emit_failed: None };
+            return CaseSpec { kind: "random-header", notes, bytes, runtime_source: simple, resource, emitted: None, emit_failed: None, built: None };
         }
         let notes = vec!["random bytes".to_string()];
-        return CaseSpec { kind: "random", notes, bytes, runtime_source: simple, resource, emitted: None, emit_failed: None };
+        return CaseSpec { kind: "random", notes, bytes, runtime_source: simple, resource, emitted: None, emit_failed: None, built: None };
     }
     // mutated: base = hand-built rich module or a compiler-emitted one
     let from_emitted = roll < 36 && !bases.emitted.is_empty();
@@ -676,6 +758,7 @@ fn gen_case(n: u64, seed: u64, bases: &Bases, out: &mut Out) -> CaseSpec {
         resource,
         emitted: None,
         emit_failed: None,
+        built: None,
     }
 }
 
@@ -688,7 +771,17 @@ pub fn run(args: &Args) -> i32 {
         restarts: 0,
     };
     // a few compiler-emitted containers as mutation bases (depend on the seed only)
-    let mut bases = Bases { emitted: Vec::new() };
+    let mut sweep_module = {
+        let mut rng = Rng::new(0xC11);
+        let mut m = rich_module(&mut rng);
+        m.version.minor = 1;
+        m.sections.retain(|s| s.id != 0x7777);
+        refresh_offsets(&mut m);
+        m
+    };
+    let sites = site_slots(&mut sweep_module);
+    out.add("site-sweep-sites", sites.len() as u64);
+    let mut bases = Bases { emitted: Vec::new(), sweep_module, sites };
     let mut brng = Rng::for_case(args.seed, u64::MAX);
     for _ in 0..4 {
         if let Some(Compiled::Ok(m, source, _)) = compile(&mut brng, &mut out) {
@@ -718,6 +811,10 @@ pub fn run(args: &Args) -> i32 {
         if let Some(e) = &spec.emitted {
             out.line("emitted");
             out.line(format!("impl {e}"));
+        }
+        if let Some(b) = &spec.built {
+            out.line("built");
+            out.line(format!("impl {b}"));
         }
         if let Some(e) = &spec.emit_failed {
             out.line(format!("emitfail {}", hex(spec.runtime_source.as_bytes())));
